@@ -66,6 +66,11 @@ CHECKS = {
             "Round-trip/differential oracle between source model and migrated destination over generated option pairs that keep the key hashing; also checks that unselected columns (incl. tree reference counts) and, without overwrite, the source are unchanged.",
             "Columns migrated to preimage/rc destinations hold value = f(key) in the source; hash<->btree migration is documented as unsupported.",
             "DESIGN.md 4 C20", "pdbv"),
+    "C09": ("exploration",
+            "model-based stateful PBT with adversarially constructed key sets (identity hash): controlled index growth 16->19 bits, index-identical collision groups, reindex batches as schedulable steps; read-after-every-op oracle + raw index re-parse after drain; crash stop points inside growth",
+            "Key sets are constructed (not sampled) so that page overflow, repeated growth and index-identical groups are the common case; reindex batches are ordinary generated steps interleaved with commits, reads, reopen and crash points; after each drain exactly one index file must remain with every model key exactly once.",
+            "Zero-salt identity hashing is the repository's own test device; growth bounded to 19 bits for file-size reasons.",
+            "DESIGN.md 4 C09", "pdbv"),
 }
 
 NOT_YET = {
